@@ -210,6 +210,19 @@ def run(ctx):
             rhs = sum(cmath.exp(-2j * math.pi * m * k / n) * ladder(n, m, True) for m in range(n)) / math.sqrt(n)
             ok = ok and np.allclose(lhs, rhs, atol=1e-7)
         num('ffft', ok, 'FFFT a+_k FFFT^-1 differs from the discrete Fourier combination of the documented equivalent bogoliubov_transform', {'n': n}, key=n)
+    # larger sizes (odd prime factors, n >= 15) through the vacuum and the single-particle sector: U a+_p |vac> = e^{i theta} sum_q F[p][q] a+_q |vac>
+    sim = cirq.Simulator(dtype=np.complex128)
+    for n in ([9, 12, 15] if ctx.quick else [9, 10, 12, 14, 15, 16, 18]):
+        # decomposed to one- and two-qubit gates (the mode permutations are otherwise dense 2^n x 2^n matrices)
+        qs = cirq.LineQubit.range(n); circ = cirq.Circuit(cirq.decompose(ffft(qs), keep=lambda op: len(op.qubits) <= 2))
+        vac = sim.simulate(circ, qubit_order=qs, initial_state=0).final_state_vector
+        th = vac[0]; ok = abs(abs(th) - 1) < 1e-7
+        for p_ in (range(n) if n <= 15 else rng.sample(range(n), 6)):
+            out = sim.simulate(circ, qubit_order=qs, initial_state=1 << (n - 1 - p_)).final_state_vector
+            amp = np.array([out[1 << (n - 1 - q_)] for q_ in range(n)])
+            want = th * np.array([cmath.exp(-2j * math.pi * p_ * q_ / n) for q_ in range(n)]) / math.sqrt(n)
+            ok = ok and np.allclose(amp, want, atol=1e-6)
+        num('ffft_single_particle', ok, 'FFFT does not map a+_p |vac> to the documented Fourier mode (vacuum and single-particle sector)', {'n': n}, key=n)
     for _ in range(N(15, 100)):
         n = rng.choice([2, 3, 4]); v = haar(rs, n) if rng.random() < 0.7 else np.linalg.qr(rs.randn(n, n))[0].astype(complex)
         qs = cirq.LineQubit.range(n)
